@@ -19,7 +19,7 @@ from vlib.core import Stage, fail
 ID = "C12"
 MANIFEST = {
     "category": "exploration",
-    "text": "Schedule exploration by generated-input search: (single) AHB expressions with several modal-mark parts, repeated keys, hints, format constraints and packages occurring several times x content evaluation results x a schedule (list of yield counts consumed call by call by the harness's async RcEvaluator / FcEvaluator methods, HintsProvider and PackageResolver; every third rc method is a plain function). The results of evaluate_ahb_expression_tree (incl. package expansion), requirement_constraint_evaluation and format_constraint_evaluation under the schedule must equal the results under the all-zero schedule and the reference evaluator's selection/outcome; the expanded tree must equal the zero-schedule tree. (concurrent) 2-5 jobs - AHB evaluations and is_valid_expression calls - run as concurrent tasks with yielding ContentEvaluationResult-based evaluators that read the job's own result from a ContextVar; every job must equal its run alone.",
+    "text": "Schedule exploration by generated-input search: (single) AHB expressions with several modal-mark parts, repeated keys, hints, format constraints and packages occurring several times x content evaluation results x a schedule (list of yield counts consumed call by call by the harness's async RcEvaluator / FcEvaluator methods, HintsProvider and PackageResolver; every third rc method is a plain function). The results of evaluate_ahb_expression_tree (incl. package expansion), requirement_constraint_evaluation and format_constraint_evaluation under the schedule must equal the results under the all-zero schedule and the reference evaluator's selection/outcome; the expanded tree must equal the zero-schedule tree. (concurrent) 2-5 jobs - AHB evaluations and is_valid_expression calls - run as concurrent tasks with yielding ContentEvaluationResult-based evaluators - or a method-based RcEvaluator whose evaluate_<key> coroutines derive their answer from the evaluatable data they are handed - that read the job's own result from a ContextVar; every job must equal its run alone.",
     "note": "Trusted: the schedule harness (vlib/sched.py), the reference evaluator, attrs equality of result objects. Delays enumerate completion orders among already started awaitables of one single-threaded event loop; threads are out of scope.",
     "technique": "property-based schedule exploration (harness-controlled yield counts) with differential (zero schedule) and reference oracles",
 }
@@ -107,7 +107,7 @@ def classify_single(case, info):
 # -------------------------------------------------------------------------------------------------- concurrent
 
 
-def _yielding_cer_based_providers():
+def _yielding_cer_based_providers(method_based_rc=False):
     from ahbicht.content_evaluation.fc_evaluators import ContentEvaluationResultBasedFcEvaluator
     from ahbicht.content_evaluation.rc_evaluators import ContentEvaluationResultBasedRcEvaluator
     from ahbicht.expressions.hints_provider import ContentEvaluationResultBasedHintsProvider
@@ -135,17 +135,43 @@ def _yielding_cer_based_providers():
             await _CURRENT[0].pause(("pkg", package_key, _JOB.get()))
             return await super().get_condition_expression(package_key)
 
-    providers = [Rc(), Fc(), Hints(), Packages()]
+    rc_evaluator = Rc()
+    if method_based_rc:
+        # a user-style evaluator: one (mostly asynchronous) evaluate_<key> method per condition, each of which derives
+        # its answer from the evaluatable data it is handed (here: the job's own dumped content evaluation result)
+        from ahbicht.content_evaluation.evaluationdatatypes import EvaluationContext
+        from ahbicht.content_evaluation.rc_evaluators import RcEvaluator
+
+        class MethodRc(RcEvaluator):
+            def _get_default_context(self):
+                return EvaluationContext(scope=None)
+
+        for index, key in enumerate(vtree.RC):
+            if index % 4 == 3:
+
+                def plain(self, evaluatable_data, context, key=key):  # pylint:disable=unused-argument
+                    return sut.CFV(evaluatable_data.body["requirement_constraints"][key])
+
+                setattr(MethodRc, f"evaluate_{key}", plain)
+            else:
+
+                async def delayed(self, evaluatable_data, context, key=key):  # pylint:disable=unused-argument
+                    await _CURRENT[0].pause(("rc", key, _JOB.get()))
+                    return sut.CFV(evaluatable_data.body["requirement_constraints"][key])
+
+                setattr(MethodRc, f"evaluate_{key}", delayed)
+        rc_evaluator = MethodRc()
+    providers = [rc_evaluator, Fc(), Hints(), Packages()]
     for provider in providers:
         provider.edifact_format, provider.edifact_format_version = sut.FMT, sut.VER
     return providers
 
 
-def _configure_concurrent():
+def _configure_concurrent(method_based_rc=False):
     from ahbicht.models.content_evaluation_result import ContentEvaluationResultSchema
 
     schema = ContentEvaluationResultSchema()
-    sut.configure(_yielding_cer_based_providers(), lambda: sut.evaluatable_data(schema.dump(_CER.get())))
+    sut.configure(_yielding_cer_based_providers(method_based_rc), lambda: sut.evaluatable_data(schema.dump(_CER.get())))
 
 
 async def _job(index, job):
@@ -163,7 +189,7 @@ async def _job(index, job):
 
 def check_concurrent(case):
     jobs = case["jobs"]
-    _configure_concurrent()
+    _configure_concurrent(case.get("method_based_rc", False))
     # every job alone, nothing yields
     alone = []
     for index, job in enumerate(jobs):
@@ -210,7 +236,7 @@ def check_concurrent(case):
 
 
 def classify_concurrent(case, info):
-    labels = [f"jobs={len(case['jobs'])}"]
+    labels = [f"jobs={len(case['jobs'])}", "rc-evaluator=" + ("methods" if case.get("method_based_rc") else "cer-based")]
     if info["interleaved"]:
         labels.append("jobs-interleaved")
     if any(j["kind"] == "validity" for j in case["jobs"]):
@@ -267,7 +293,7 @@ def strategy_concurrent(tier):
             else:
                 expr, table = draw(_expression(size))
                 jobs.append({"kind": kind, "s": expr["s"], "parts": expr["parts"], "table": table, "cer": draw(vtree.g_cer())})
-        return {"jobs": jobs, "delays": _delays(draw, 60)}
+        return {"jobs": jobs, "delays": _delays(draw, 60), "method_based_rc": draw(st.booleans())}
 
     return build()
 
